@@ -197,7 +197,7 @@ pub fn c22_find_next_bit_regions(s: &mut Src) {
 harnesses! {
     #[kani::unwind(26)] #[kani::stub(alloc::fmt::format, crate::env::stub_format)] #[kani::stub(mmtk::util::Address::load, crate::env::stub_addr_load)] #[kani::stub(mmtk::util::Address::is_mapped, crate::env::stub_is_mapped)] c22_find_prev_vo; // loops=in_metadata_bytes:5 timeout=900
     #[kani::unwind(26)] #[kani::stub(alloc::fmt::format, crate::env::stub_format)] #[kani::stub(mmtk::util::Address::load, crate::env::stub_addr_load)] #[kani::stub(mmtk::util::Address::is_mapped, crate::env::stub_is_mapped)] c22_find_next_vo; // loops=in_metadata_bytes:5 timeout=900
-    #[kani::unwind(26)] #[kani::stub(alloc::fmt::format, crate::env::stub_format)] #[kani::stub(mmtk::util::Address::load, crate::env::stub_addr_load)] #[kani::stub(mmtk::util::Address::is_mapped, crate::env::stub_is_mapped)] c22_scan_vo; // loops=in_metadata_bytes:5+in_metadata_word:10 timeout=900
+    #[kani::unwind(26)] #[kani::stub(alloc::fmt::format, crate::env::stub_format)] #[kani::stub(mmtk::util::Address::load, crate::env::stub_addr_load)] #[kani::stub(mmtk::util::Address::is_mapped, crate::env::stub_is_mapped)] c22_scan_vo; // tier=wip loops=in_metadata_bytes:5+in_metadata_word:10 timeout=900
     #[kani::unwind(26)] #[kani::stub(alloc::fmt::format, crate::env::stub_format)] #[kani::stub(mmtk::util::Address::load, crate::env::stub_addr_load)] #[kani::stub(mmtk::util::Address::is_mapped, crate::env::stub_is_mapped)] c22_find_prev_multi; // tier=wip timeout=1800 loops=in_metadata_bytes:5
     #[kani::unwind(26)] #[kani::stub(alloc::fmt::format, crate::env::stub_format)] #[kani::stub(mmtk::util::Address::load, crate::env::stub_addr_load)] #[kani::stub(mmtk::util::Address::is_mapped, crate::env::stub_is_mapped)] c22_find_next_multi; // tier=wip timeout=1800 loops=in_metadata_bytes:5
     #[kani::unwind(26)] #[kani::stub(alloc::fmt::format, crate::env::stub_format)] #[kani::stub(mmtk::util::Address::load, crate::env::stub_addr_load)] #[kani::stub(mmtk::util::Address::is_mapped, crate::env::stub_is_mapped)] c22_scan_multi; // tier=wip timeout=1800 loops=in_metadata_bytes:5+in_metadata_word:10
